@@ -353,32 +353,55 @@ def _share(repo, col):
             col.check(not bad, R, fi, f"mutable default `{p}` of {fi.qual} is not stored on the instance", "",
                       f"`{unparse(bad[0].node) if bad else ''}` stores the shared default object: all instances (and their copies) "
                       f"share it", node=bad[0].node if bad else fi.node)
-    # class-level / module-level containers mutated by instance methods
+    # class-level containers mutated through an instance: state that lives on the CLASS is neither pickled nor copied, and is
+    # shared by every module in the process.  An attribute is per-instance only if some __init__ in the MRO assigns it.
+    def is_mutable(v):
+        return isinstance(v, (ast.Dict, ast.List, ast.Set, ast.ListComp, ast.DictComp, ast.SetComp)) or \
+            (isinstance(v, ast.Call) and unparse(v.func) in ("list", "dict", "set", "defaultdict", "OrderedDict", "collections.defaultdict",
+                                                               "np.zeros", "np.array", "np.asarray", "pd.DataFrame"))
     for cname in ("Module", "View", "Compartment", "Branch", "Cell", "Network", "Channel", "Synapse"):
         ci = repo.classes.get(cname)
         if ci is None:
             continue
-        cattrs = {k for k, v in ci.attrs.items() if isinstance(v, (ast.Dict, ast.List, ast.Set))}
+        mro = repo.mro(cname)
+        cattrs = {}
+        for c_ in mro:
+            for k, v in c_.attrs.items():
+                if is_mutable(v):
+                    cattrs.setdefault(k, c_.name)
+        per_instance = set()
+        for c_ in mro:
+            init = c_.methods.get("__init__")
+            if init is not None:
+                per_instance |= {s2.key.name for s2 in idx.expander(repo, init).stores
+                                 if s2.kind == "attr" and s2.base.op == "param" and s2.base.name == "self"}
         for m in ci.methods.values():
             ex = idx.expander(repo, m)
             for s in ex.stores:
+                if s.kind not in ("sub", "mcall", "aug"):
+                    continue
+                if s.kind == "mcall" and s.key.name not in ("append", "extend", "insert", "update", "pop", "remove", "clear", "add", "setdefault",
+                                                              "popitem", "sort", "reverse", "discard"):
+                    continue
                 tgt = s.base
-                txt = tgt.pretty()
-                hit = None
-                for k in cattrs:
-                    if txt in (f"self.{k}", f"{cname}.{k}", f"self.__class__.{k}", f"type(self).{k}") and s.kind in ("sub", "mcall", "aug"):
-                        # self.k[...] = v mutates the class-level dict unless an instance attribute shadows it
-                        assigned = any(s2.kind == "attr" and s2.key.name == k for s2 in ex.stores)
-                        if not assigned:
-                            hit = k
-                if hit:
-                    n += 1
-                    col.bad(R, m, f"class-level container `{cname}.{hit}` mutated in {m.qual}",
-                            f"`{unparse(s.node)[:70]}` mutates a container defined on the class: every instance and every copy shares it",
-                            node=s.node)
-        for k in sorted(cattrs):
+                if tgt.op != "attr" or tgt.name not in cattrs:
+                    continue
+                recv = tgt.args[0]
+                on_instance = idx._is_module_recv(recv) or (recv.op == "attr" and recv.name == "__class__") or \
+                    (recv.op == "call" and recv.name == "type") or (recv.op in ("name", "free", "global") and recv.name in [c_.name for c_ in mro])
+                if not on_instance:
+                    continue
+                k = tgt.name
+                shadowed = k in per_instance and idx._is_module_recv(recv)
+                n += 1
+                col.check(shadowed, R, m, f"`{tgt.pretty()}` mutated in {m.qual} is per-instance state",
+                          f"assigned in __init__ (class-level default of {cattrs[k]} is shadowed)",
+                          f"`{unparse(s.node)[:70]}` mutates the container that `{cattrs[k]}.{k}` defines on the CLASS and that no __init__ "
+                          f"replaces by a per-instance object: it is not part of the pickled / deep-copied state, and every module in the "
+                          f"process (original and copies) shares it", node=s.node)
+        for k in sorted(k_ for k_, own in cattrs.items() if own == cname):
             n += 1
-            col.ok(R, ci.file, f"class-level container {cname}.{k} is only read", "", func=cname, node=ci.node)
+            col.ok(R, ci.file, f"class-level container {cname}.{k} recorded", "", func=cname, node=ci.node)
     fi = repo.method("Network", "__init__")
     src = unparse(fi.node)
     col.check("self.xyzr += deepcopy(cell.xyzr)" in src, R, fi, "Network copies the coordinates of its cells",
